@@ -218,6 +218,7 @@ def rule_nearest(ctx):
     arg = canon(flow.resolve(cam.args[0], at=am[0], depth=3, stop=(ts,)))
     # stop the resolution at the list of coverages
     seq = None
+    acc_files = None
     ok = False
     todo, seen_ = [cam.args[0]], set()
     while todo and seq is None:
@@ -228,6 +229,17 @@ def rule_nearest(ctx):
             if sd and isinstance(sd[0], ast.ListComp):
                 seq = nm
                 break
+            if sd and isinstance(sd[0], ast.List) and not sd[0].elts:
+                # an accumulator filled in a loop over the files (`times.append(file.times)` on every pass that does not return)
+                for lp_ in [st_ for st_ in flow.stmts if isinstance(st_, ast.For) and isinstance(st_.target, ast.Name)]:
+                    apps = [st_ for st_ in lp_.body if isinstance(st_, ast.Expr) and isinstance(st_.value, ast.Call) and str(norm(st_.value.func)) == "%s.append" % nm
+                            and len(st_.value.args) == 1]
+                    jumps = [n_ for b_ in lp_.body for n_ in ast.walk(b_) if isinstance(n_, (ast.Continue, ast.Break))]
+                    if len(apps) == 1 and not jumps and str(norm(apps[0].value.args[0])) == "%s.times" % lp_.target.id:
+                        seq = nm
+                        acc_files = str(norm(lp_.iter))
+                if seq is not None:
+                    break
             if sd:
                 todo.append(sd[0])
     if seq is None:
@@ -242,6 +254,8 @@ def rule_nearest(ctx):
     sdef = flow.single_def_value(seq, am[0])
     if sdef and isinstance(sdef[0], ast.ListComp) and norm(sdef[0].elt).endswith(".times") and not sdef[0].generators[0].ifs:
         files = norm(sdef[0].generators[0].iter)
+    elif acc_files is not None:
+        files = acc_files
     rets = [s_ for s_ in flow.stmts if isinstance(s_, ast.Return) and s_.value is not None
             and any(isinstance(n_, ast.Call) and isinstance(n_.func, ast.Attribute) and n_.func.attr == "argmin" for n_ in ast.walk(flow.resolve(s_.value, at=s_, depth=3, stop=(ts, seq))))]
     okr = False
